@@ -18,7 +18,7 @@ RULE = (
     "at least one command that depends on the state left by the first piece (anything but an absolute move first)."
 )
 BUDGET = {"quick": 16000, "thorough": 500000}
-TIME_CAP = {"quick": 60, "thorough": 1500}
+TIME_CAP = {"quick": 240, "thorough": 1500}
 ANCHORS = ["Path.__iadd__", "Path.__add__", "Path.__radd__", "Path.parse", "Path.current_point", "Path.z_point", "Path.smooth_point",
            "PathSegment.__iadd__", "Path.append", "Path.extend", "Path._validate_subpath", "Path._validate_connection", "Path.__copy__"]
 REQUIRED_MONITORS = ["append-vs-whole", "append-vs-reference", "left-operand-unchanged", "concat-geometry", "path-links"]
